@@ -288,62 +288,101 @@ def frames(chk, zb, zvt):
 
 
 def frame_order_ser(chk, b, inst):
-    """tag || L::serialize(len(payload)) || payload, when the impl frames by itself (it may
-    instead delegate to another serialize_tagged)."""
-    tr = Tracer(b)
+    """tag || L::serialize(len(payload)) || payload, when the impl frames by itself (it may instead delegate to
+    another serialize_tagged).  Decided on the value the function returns along every feasible path (pathsym):
+    the returned vector, read as a concatenation, must be exactly those parts in that order - whether it is
+    built with append, extend, extend_from_slice, concat or by starting from the encoded tag."""
+    import pathsym as ps
     calls = list(b.calls())
-    names = [callee(t) for _, t in calls]
-    enc_calls = [(bb, t) for bb, t in calls if callee(t) == "zvt_builder::encoding::Encoding::encode"]
     len_calls = [(bb, t) for bb, t in calls if callee(t) == "zvt_builder::length::Length::serialize"]
     if not len_calls:
-        deleg = [t for _, t in calls if callee(t) == layout.SER]
         # closures (Vec impl) delegate inside a closure body
         chk.ok("C01-d/delegates", inst, "delegates to inner serialize_tagged", b.sp(), nontrivial=False)
         return
-    appends = [(bb, t) for bb, t in calls if callee(t) == "alloc::vec::Vec::<T, A>::append"]
-    order = b.rpo()
-    pos = {x: i for i, x in enumerate(order)}
-    appends.sort(key=lambda x: pos[x[0]])
-    payload_calls = [(bb, t) for bb, t in enc_calls if ty_str(t["f"]["a"][1]) != "zvt_builder::Tag"]
-    tag_calls = [(bb, t) for bb, t in enc_calls if ty_str(t["f"]["a"][1]) == "zvt_builder::Tag"]
-    good = len(len_calls) == 1 and len(payload_calls) == 1 and len(appends) == 2
-    if not chk.require(good, "C01-d/frame-shape", inst,
-                       "expected one L::serialize, one E::encode and two appends, found %d/%d/%d" % (
-                           len(len_calls), len(payload_calls), len(appends)), "", b.sp()):
-        return
-    lbb, lt = len_calls[0]
-    pbb, pt = payload_calls[0]
-    # L::serialize argument = len(payload)
-    v = tr.value(lt["args"][0])
-    ok_len = False
-    if v.kind == "call" and callee(v.term) in ("alloc::vec::Vec::<T, A>::len",):
-        a = tr.value(v.term["args"][0])
-        if a.kind == "ref" and a.place.strip_deref().l in (pt["dest"]["l"],) + tuple(_aliases(tr, b, pt["dest"]["l"])):
-            ok_len = True
-        if a.kind in ("ref", "place") and a.place.strip_deref() == NPlace(1, []) and _payload_is_self(tr, pt):
-            ok_len = True
-    chk.require(ok_len, "C01-d/length-of-payload", inst,
-                "the length handed to L::serialize is not the length of the encoded payload", "len(payload)", lt.get("sp"))
-    # append order: first the length, then the payload; into the returned vector
-    def src_local(t):
-        s_ = tr.value(t["args"][1])
-        return s_.place.strip_deref().l if s_.kind == "ref" else None
-    first, second = src_local(appends[0][1]), src_local(appends[1][1])
-    len_locals = {lt["dest"]["l"]} | set(_aliases(tr, b, lt["dest"]["l"]))
-    pay_locals = {pt["dest"]["l"]} | set(_aliases(tr, b, pt["dest"]["l"]))
-    chk.require(first in len_locals and second in pay_locals, "C01-d/append-order", inst,
-                "bytes are not concatenated as length || payload", "length || payload", appends[0][1].get("sp"))
-    # the tag comes first: output is initialised from TE::encode(tag) before both appends
-    if tag_calls:
-        tbb, tt = tag_calls[0]
-        dst = tr.value(appends[0][1]["args"][0])
-        out_l = dst.place.strip_deref().l if dst.kind == "ref" else None
-        tag_into_out = any(d[2] == "call" and d[3] is tt for d in tr.defs.get(out_l, [])) or \
-            any(d[2] == "assign" and d[3]["rv"]["r"] == "use" and op_place(d[3]["rv"]["o"]) and
-                tr.nplace(op_place(d[3]["rv"]["o"])).l == tt["dest"]["l"] for d in tr.defs.get(out_l, []))
-        before = all(not _reaches(b, abb, tbb) for abb, _ in appends)
-        chk.require(tag_into_out and before, "C01-d/tag-first", inst,
-                    "the encoded tag is not the prefix of the output", "tag || ...", tt.get("sp"))
+    GROW = ("alloc::vec::Vec::<T, A>::append", "alloc::vec::Vec::<T, A>::extend_from_slice", "core::iter::traits::collect::Extend::extend",
+            "alloc::vec::Vec::<T, A>::extend_from_within")
+    EMPTY = ("alloc::vec::Vec::<T>::new", "core::default::Default::default", "alloc::vec::Vec::<T>::with_capacity")
+
+    def parts(e, depth=0):
+        """the byte sequence e denotes, as a list of parts (None = not understood)"""
+        e = ps.strip(e)
+        if depth > 12:
+            return None
+        if e[0] == "call-mut":
+            if e[1] not in GROW or len(e[2]) < 2:
+                return None
+            a, c = parts(e[3], depth + 1), parts(e[2][1], depth + 1)
+            return None if a is None or c is None else a + c
+        if e[0] == "call":
+            if e[1] in EMPTY:
+                return []
+            if e[1].endswith("::concat") and e[2]:
+                arr = ps.strip(e[2][0])
+                if arr[0] == "agg" and arr[1] == "array":
+                    out = []
+                    for x in arr[2]:
+                        px = parts(x, depth + 1)
+                        if px is None:
+                            return None
+                        out += px
+                    return out
+            if e[1].endswith(("::into_iter", "::to_vec", "::into_vec", "::iter", "::copied", "::cloned", "::as_slice", "::drain")) and e[2]:
+                return parts(e[2][0], depth + 1)
+        return [e]
+
+    def kind(x):
+        if x[0] == "call" and x[1] == "zvt_builder::encoding::Encoding::encode":
+            return "tag" if len(x[3]) > 1 and x[3][1] == "zvt_builder::Tag" else "payload"
+        if x[0] == "call" and x[1] == "zvt_builder::length::Length::serialize":
+            return "len"
+        return "?"
+    pe = ps.PathEval(b, {})
+    rets = [i for i in sorted(b.reachable(0)) if b.blocks[i]["term"]["t"] == "return"]
+    n_paths = n_empty = 0
+    for r in rets:
+        for path in ps.simple_paths(b, 0, r):
+            n_paths += 1
+            env, conds = pe.run(path)
+            ps_ = parts(ps.norm(env.get(0, ("pre", 0))))
+            kinds = [kind(x) for x in ps_] if ps_ is not None else None
+            if kinds == []:
+                # the value is omitted altogether on this path (an empty raw payload, like Option::None)
+                n_empty += 1
+                continue
+            good = kinds is not None and "?" not in kinds and sorted(kinds) in (["len", "payload"], ["len", "payload", "tag"])
+            if not chk.require(good, "C01-d/frame-shape", inst,
+                               "the returned bytes are not a concatenation of the encoded tag, L::serialize(..) and the encoded "
+                               "payload: parts %s" % (kinds if kinds is not None else ps.show(ps.norm(env.get(0, ("pre", 0))))[:120]), "", b.sp()):
+                continue
+            chk.require(kinds in (["len", "payload"], ["tag", "len", "payload"]), "C01-d/append-order", inst,
+                        "bytes are concatenated as %s, not as [tag ||] length || payload" % " || ".join(kinds), "length || payload", b.sp())
+            if "tag" in kinds:
+                chk.require(kinds[0] == "tag", "C01-d/tag-first", inst, "the encoded tag is not the prefix of the output", "tag || ...", b.sp())
+            # a tag that was handed in must be written: on a path where the tag argument is Some, the tag part exists
+            tag_some = any(ps.norm(ce) == ("discr", ("pre", 2)) and taken == 1 for _, ce, taken, _ in conds)
+            chk.require(not tag_some or "tag" in kinds, "C01-d/tag-first", inst,
+                        "a tag is handed in but the output on this path does not start with it", "tag || ...", b.sp())
+            # L::serialize argument = len(payload)
+            lpart = ps_[kinds.index("len")]
+            ppart = ps_[kinds.index("payload")]
+            arg = ps.strip(lpart[2][0]) if lpart[2] else ("?",)
+            ok_len = False
+            inner = None
+            if arg[0] == "len":
+                inner = ps.strip(arg[1])
+            elif arg[0] == "call" and arg[1].endswith("::len") and arg[2]:
+                inner = ps.strip(arg[2][0])
+            if inner is not None:
+                ok_len = inner == ppart
+                if not ok_len and inner == ("pre", 1):
+                    # len(self) where the payload encoder is the identity copy of self
+                    pt = [t_ for _, t_ in calls if callee(t_) == "zvt_builder::encoding::Encoding::encode" and
+                          ty_str(t_["f"]["a"][1]) != "zvt_builder::Tag"]
+                    ok_len = len(pt) == 1 and _payload_is_self(Tracer(b), pt[0])
+            chk.require(ok_len, "C01-d/length-of-payload", inst,
+                        "the length handed to L::serialize is not the length of the encoded payload: %s" % ps.show(arg)[:80], "len(payload)", b.sp())
+    chk.require(n_paths > n_empty, "C01-d/frame-shape", inst, "no path returns a framed value (%d paths, %d empty)" % (n_paths, n_empty), "",
+                b.sp(), nontrivial=False)
 
 
 IDENTITY_ENCODERS = set()
